@@ -766,8 +766,8 @@ fn gen(rng: &mut Rng, n: usize) -> Vec<Case> {
 //   transcript computes the same disjunction.
 // ------------------------------------------------------------------------------------------------
 fn git_applicable(flags: u64, p: &[u8], t: &[u8]) -> bool {
-    if p.is_empty() || t.is_empty() {
-        return false;
+    if p.is_empty() || t.is_empty() || t[0] == b':' {
+        return false; // a leading ':' is pathspec magic for check-ignore
     }
     if p.contains(&0) || p.contains(&b'\n') || t.contains(&0) {
         return false;
@@ -819,7 +819,6 @@ fn git(c: &Case) -> String {
         .env("GIT_CONFIG_NOSYSTEM", "1")
         .env("HOME", dir)
         .env("LC_ALL", "C")
-        .env("GIT_LITERAL_PATHSPECS", "1")
         .args([
             "-c",
             if flags & 2 != 0 { "core.ignorecase=true" } else { "core.ignorecase=false" },
